@@ -15,6 +15,7 @@ import (
 	"io"
 	"net/http"
 	"os"
+	"sort"
 	"strings"
 	"sync"
 	"time"
@@ -306,9 +307,15 @@ func runUploadLoop(c Case, res *lib.Result) {
 // k transient faults (k < limit) at the only host, then normal service: the operation must succeed
 func runTransient(c Case, res *lib.Result) {
 	t := newTopo(c)
+	for _, tg := range []string{"t-a", "t-b", "t-c"} {
+		t.regs[0].PutManifest("repo", tg, "application/vnd.oci.image.manifest.v1+json", manBody)
+	}
+	if c.API == "TagList" {
+		t.regs[0].F.TagPage = 1
+	}
 	k := 0
 	t.hook = func(hi int, req *http.Request, n int) *http.Response {
-		if !strings.Contains(req.URL.Path, "/manifests/") && !strings.Contains(req.URL.Path, "/blobs/") {
+		if !strings.Contains(req.URL.Path, "/manifests/") && !strings.Contains(req.URL.Path, "/blobs/") && !strings.Contains(req.URL.Path, "/tags/list") {
 			return nil
 		}
 		i := k
@@ -356,6 +363,47 @@ func runTransient(c Case, res *lib.Result) {
 		r, _ := ref.New(hostNames[0] + "/repo:t2")
 		m, _ := manifest.New(manifest.WithRaw(manBody))
 		err = t.rc.ManifestPut(ctx, r, m)
+	case "ManifestHead":
+		r, _ := ref.New(hostNames[0] + "/repo:tag")
+		var m manifest.Manifest
+		m, err = t.rc.ManifestHead(ctx, r)
+		if err == nil && m.GetDescriptor().Digest.String() != memreg.Digest("sha256", manBody) {
+			res.Fail("transient-wrong-result", "ManifestHead after transient faults reported another digest", c)
+		}
+	case "BlobHead":
+		r, _ := ref.New(hostNames[0] + "/repo:tag")
+		layer := []byte("layer-data")
+		var rd interface{ Close() error }
+		rd, err = t.rc.BlobHead(ctx, r, descriptor.Descriptor{Digest: digest.FromBytes(layer), Size: int64(len(layer))})
+		if err == nil {
+			_ = rd.Close()
+		}
+	case "TagList": // a listing in pages of one tag: every page request may meet a fault
+		r, _ := ref.New(hostNames[0] + "/repo")
+		tl, e := t.rc.TagList(ctx, r)
+		err = e
+		if e == nil {
+			got, _ := tl.GetTags()
+			sort.Strings(got)
+			if strings.Join(got, ",") != "t-a,t-b,t-c,tag" {
+				res.Fail("transient-wrong-result", fmt.Sprintf("TagList over pages with transient faults returned %v", got), c)
+			}
+		}
+	case "BlobPut":
+		r, _ := ref.New(hostNames[0] + "/repo:tag")
+		nb := []byte("blob pushed under transient faults")
+		_, err = t.rc.BlobPut(ctx, r, descriptor.Descriptor{Digest: digest.FromBytes(nb), Size: int64(len(nb))}, bytes.NewReader(nb))
+		if err == nil {
+			t.regs[0].Lock()
+			_, ok := t.regs[0].Repos["repo"].Blobs[digest.FromBytes(nb).String()]
+			t.regs[0].Unlock()
+			if !ok {
+				res.Fail("transient-wrong-result", "BlobPut reported success but the registry does not hold the blob", c)
+			}
+		}
+	case "TagDelete":
+		r, _ := ref.New(hostNames[0] + "/repo:t-a")
+		err = t.rc.TagDelete(ctx, r)
 	}
 	if ctx.Err() != nil {
 		res.Fail("request-did-not-terminate", "operation with transient faults still running after 10s", c)
@@ -800,7 +848,7 @@ func Run(o lib.Opts) {
 			}
 			all = append(all, c)
 		case k < 85:
-			c := Case{Kind: "transient", Limit: 2 + r.Intn(4), API: lib.Pick(r, []string{"ManifestGet", "BlobGet", "ManifestPut"})}
+			c := Case{Kind: "transient", Limit: 2 + r.Intn(4), API: lib.Pick(r, []string{"ManifestGet", "BlobGet", "ManifestPut", "ManifestHead", "BlobHead", "TagList", "BlobPut", "TagDelete"})}
 			for j := r.Intn(c.Limit); j > 0; j-- {
 				if r.Chance(25) {
 					c.Replies = append(c.Replies, Reply{K: "net"})
